@@ -256,6 +256,8 @@ def run_value(method, n, orders, terms, ratios):
 
 
 def run_zero():
+    from .common import defaults_facts
+    defaults_facts(['core.Derivative.__init__'])
     with fd_env(names=ALL, symkey_cache=False) as m:
         core, mc = m['core'], m['mc']
         from .pipeline import ElementwiseF
